@@ -9,7 +9,7 @@ from pathlib import Path
 from .. import gen
 from ..harness import CheckBase
 
-COMMANDS = ('list-snapshots', 'list-files', 'restore', 'delete', 'clean', 'snapshot')
+COMMANDS = ('list-snapshots', 'list-files', 'restore', 'delete', 'clean', 'snapshot', 'download-objects')
 STATES = ('empty', 'warm', 'warm-by-family-member', 'warm-by-independent-key', 'shared-with-other-repository',
           'stale-after-add', 'stale-after-delete', 'entry-missing', 'entry-empty', 'entry-prefix-1', 'entry-prefix-half',
           'entry-prefix-len-1', 'all-entries-truncated', 'after-failed-run-with-garbled-download', 'cold-many-concurrent',
@@ -103,6 +103,11 @@ class Check(CheckBase):
                         await repo.delete_snapshots(own[:1], confirm=False)
                     elif cmd == 'clean':
                         await repo.clean()
+                    elif cmd == 'download-objects':
+                        target = tempfile.mkdtemp(prefix='o-', dir=scratch)
+                        await repo.download_objects(path=Path(target))
+                        obs['tree'] = {k: v[0] for k, v in gen.walk_tree(target).items()}
+                        shutil.rmtree(target, ignore_errors=True)
                     elif cmd == 'snapshot':
                         src = os.path.join(scratch, 'newsrc')
                         if not os.path.exists(src):
